@@ -179,12 +179,18 @@ class _RedisConsumer(ConsumerT):
                     return str_name
         return None
 
-    def __mark_processing(self, msg_short_name: str, full_queue_name: str, pipe: Pipeline) -> None:
+    def __mark_processing(
+        self,
+        msg_short_name: str,
+        full_queue_name: str,
+        pipe: Pipeline,
+        reject_to: str | None = None,
+    ) -> None:
         pipe.zadd(self.broker.processing_queue, {msg_short_name: str(unix_time())})
         pipe.hset(
             full_message_name_from_short(msg_short_name, full_queue_name),
             key="_reject_to",
-            value=get_queue_marker(full_queue_name),
+            value=reject_to or get_queue_marker(full_queue_name),
         )
 
     async def __get_message_name(
@@ -194,6 +200,7 @@ class _RedisConsumer(ConsumerT):
         *,
         delayed: bool = False,
         force_delayed: bool = False,
+        reject_to: str | None = None,
     ) -> str | None:
         new_topics = tuple(x + ":" for x in topics)
         msg_short_name = await self.__fetch_message_name(
@@ -211,7 +218,7 @@ class _RedisConsumer(ConsumerT):
             else:
                 pipe.zrem(full_queue_name, msg_short_name)
             # mark message as processing
-            self.__mark_processing(msg_short_name, full_queue_name, pipe)
+            self.__mark_processing(msg_short_name, full_queue_name, pipe, reject_to)
             try:
                 removed, *_ = await pipe.execute()
             except Exception:  # pragma: no cover  # noqa: BLE001
@@ -231,6 +238,8 @@ class _RedisConsumer(ConsumerT):
                 qnc(self.queue_name, priority, delayed=True),
                 self.topics,
                 delayed=True,
+                # the message is due: if it is rejected, it has to be deliverable at once
+                reject_to="n",
             )
             # if there is no message in delayed queue, try normal queue
             if msg_short_name is None:
